@@ -37,6 +37,8 @@ type lossHist struct {
 	newest     uint16
 	haveNewest bool
 	restarted  bool // a restart happened since the last GetStats
+	travel     uint64 // sum of the forward steps of the newest number (monitor expected_bounded)
+	expects    uint64 // sum of the Expect(n) calls
 	strayed    bool // a single packet more than 256 old was delivered (stray stream)
 	// F20 at its boundary, in any stream: a packet exactly 256 behind the newest
 	// one became the window start (Store returned it as bitmap.first), which
@@ -81,6 +83,7 @@ func (h *lossHist) noteStore(seq uint16, first uint16) {
 		h.newest = seq
 	} else if int16(seq-h.newest) > 0 {
 		jumped = seq-h.newest > 300
+		h.travel += uint64(seq - h.newest)
 		h.newest = seq
 	} else if h.newest-seq > 0x100 {
 		h.newest = seq
@@ -221,6 +224,7 @@ func (h *lossHist) readloop(seq uint16, kf bool, rate uint32, ok bool) []uint16 
 			if ok {
 				obs = fmt.Sprintf("%d:%d", f, bitmap)
 				h.c.Expect(1 + bits.OnesCount16(bitmap))
+				h.expects += uint64(1 + bits.OnesCount16(bitmap))
 				nums = n
 			}
 		}
@@ -232,6 +236,7 @@ func (h *lossHist) readloop(seq uint16, kf bool, rate uint32, ok bool) []uint16 
 
 func (h *lossHist) expect(n int) {
 	h.c.Expect(n)
+	h.expects += uint64(n)
 	h.t.Op("-", "expect", n)
 }
 
@@ -245,6 +250,19 @@ func (h *lossHist) stats(reset bool) packetcache.Stats {
 	}
 	if s.TotalReceived > s.TotalExpected {
 		h.t.Fail("C06", "received_le_expected", fmt.Sprintf("total: received %d > expected %d", s.TotalReceived, s.TotalExpected))
+	}
+	// an independent ceiling: the server cannot have expected more packets than
+	// the newest number travelled forward (plus one per arrival: the first packet
+	// and every restart count one, plus what Expect added for retransmissions),
+	// nor have received more than arrived.  A counter that went below zero
+	// (e.g. an increment computed without the 16-bit wrap) shows up here as a
+	// value near 2^32, which `received <= expected` alone does not notice.
+	h.t.Checked("C06.expected_bounded")
+	if bound := h.travel + uint64(h.stores) + h.expects; uint64(s.TotalExpected) > bound || uint64(s.Expected) > bound {
+		h.t.Fail("C06", "expected_bounded", fmt.Sprintf("expected %d (interval) / %d (total) although the newest number moved forward by %d in all, %d packets arrived and Expect added %d", s.Expected, s.TotalExpected, h.travel, h.stores, h.expects))
+	}
+	if uint64(s.TotalReceived) > uint64(h.stores) || uint64(s.Received) > uint64(h.stores) {
+		h.t.Fail("C06", "expected_bounded", fmt.Sprintf("received %d (interval) / %d (total) although only %d packets arrived", s.Received, s.TotalReceived, h.stores))
 	}
 	h.t.Checked("C06.eseqno_monotone")
 	if h.haveESeqno && !h.restarted && s.ESeqno < h.lastESeqno {
